@@ -39,6 +39,24 @@ def printer_functions(F):
     return [f for f in F.fn.values() if f['loc'].split(':')[0] in PRINTER_FILES]
 
 
+def _linear(t, sign=1, acc=None):
+    """a sum / difference of terms as {term: coefficient} (constants under the key None): x + (y - x) and y are the same value"""
+    top = acc is None
+    acc = {} if acc is None else acc
+    while isinstance(t, tuple) and t and t[0] == 'castto':
+        t = t[2]
+    if isinstance(t, tuple) and t[:1] == ('op',) and len(t) == 4 and t[1] in ('+', '-'):
+        _linear(t[2], sign, acc)
+        _linear(t[3], sign if t[1] == '+' else -sign, acc)
+    elif isinstance(t, tuple) and t[:1] == ('op',) and len(t) == 3 and t[1] == '-':
+        _linear(t[2], -sign, acc)
+    elif isinstance(t, tuple) and t[:1] == ('k',) and isinstance(t[1], int):
+        acc[None] = acc.get(None, 0) + sign * t[1]
+    else:
+        acc[t] = acc.get(t, 0) + sign
+    return {k: v for k, v in acc.items() if v != 0} if top else acc
+
+
 def run(ck, F):
     ck.explanation = (
         'Termination: every public printer entry (xpr_expr, xpr_type, xpr_stmt, xpr_decl) is executed symbolically on '
@@ -282,6 +300,65 @@ def run(ck, F):
         ck.check(R6, f['id'], not hit, f'{f["id"]} is declared noexcept but reaches {len(hit)} function(s) that throw (e.g. '
                  f'{[contracts.short(contracts.fn_qname(h)) for h in hit[:3]]}): a refusal raised below it calls std::terminate instead of '
                  'reaching the caller as std::logic_error', loc=f['loc'], fn=f['id'])
+
+    # a refusal that is caught inside the printer: the pending indentation is adjusted by explicit, paired calls (not by scope
+    # guards), so the exception leaves it wherever the nested printing had got to
+    R7 = ck.rule('C18.refusal-keeps-indentation', 'a printer function that catches a refusal raised by nested printing and goes on (the '
+                 'handler completes) returns with the pending indentation it started with: evaluated with every nested printing call able '
+                 'to throw from an unknown nesting depth, one arbitrary application of each sequence functor included; the inventory '
+                 'instance counts the try-blocks met', floor=1)
+    tries = {}
+    for f in pf:
+        if any(n.get('k') == 'try' for n in walk(f.get('body'))):
+            root = f['id']
+            if '::(lambda' in root:
+                root = root[:root.index('::(lambda')]
+            tries.setdefault(root, []).append(f['id'])
+    ck.check(R7, 'inventory', True, f'{len(tries)} printer function(s) contain a try-block')
+    if tries:
+        ents_ = ppgraph.entries(F)
+        pf_ids = {f['id'] for f in pf}
+        base_op = ppgraph.printer_opaque(F)
+        entry_ids = {f['id'] for f in ents_.values()}
+        St = Sym(F, opaque=lambda fid: fid in entry_ids or base_op(fid), max_depth=64)
+        St.apply_functors = True
+        HAVOC = ('sym', 'the indentation reached when the refusal was raised')
+
+        def may_throw(target, recv, args, st2):
+            if target in entry_ids or target in pf_ids:
+                st2.throw = 'std::logic_error'
+                st2.symstore[indent_fld] = HAVOC
+                return [st2]
+            return []
+        St.opaque_outcomes = may_throw
+        for root, inner in sorted(tries.items()):
+            g = F.fn.get(root)
+            if g is None or not g.get('body'):
+                raise AnalysisBroken(f'{inner[0]}: enclosing function {root} not found')
+            st0 = State()
+            this = None
+            if g.get('parent') and g['parent'] in F.rec and not g.get('static'):
+                this = st0.new_obj(g['parent'])
+                for c in [g['parent']] + F.ancestors(g['parent']):
+                    for fl in (F.rec.get(c) or {}).get('fields', []):
+                        if fl['t'].replace('const ', '').strip() in ('ipr::Printer &', 'ipr::Printer *'):
+                            st0.heap[this[1]].fields[fl['name']] = ppgraph.PRINTER if fl['t'].rstrip().endswith('&') else ('addr', ppgraph.PRINTER)
+            args = [ppgraph.PRINTER if p['t'].replace('const ', '').strip() == 'ipr::Printer &' else ('param', i) for i, p in enumerate(g['params'])]
+            try:
+                outs = St.run(root, this=this, args=args, state=st0)
+            except Unsupported as e:
+                raise AnalysisBroken(f'{root}: {e}')
+            drift = []
+            for s2, k, v in outs:
+                if k != 'return':
+                    continue
+                fin = s2.symstore.get(indent_fld, indent_fld)
+                if _linear(fin) != _linear(indent_fld):
+                    drift.append(contracts.render(fin, s2, {})[:100])
+            ck.check(R7, contracts.short(contracts.fn_qname(root)), not drift,
+                     f'{root} catches a refusal (try-block in {[contracts.short(contracts.fn_qname(x)) for x in inner][:2]}) and returns normally '
+                     f'with the pending indentation at `{sorted(set(drift))[:2]}` instead of its initial value: everything printed afterwards is shifted',
+                     loc=g['loc'], fn=root)
 
     # static tables of the printer
     for g in F.globals:
